@@ -9,7 +9,8 @@ git -C /repo worktree add -q --detach $S/repo HEAD || exit 3
 cp /repo/Cargo.lock $S/repo/ 2>/dev/null
 git -C $S/repo apply "$patch" || { echo "patch does not apply"; exit 3; }
 mkdir -p $S/verif
-rsync -a --exclude .git --exclude .work --exclude replays --exclude evidence /verif/ $S/verif/
+rsync -a --exclude .git --exclude .work --exclude replays --exclude evidence ${VERIF_SRC:-/verif}/ $S/verif/
+[ -n "$VERIF_SRC" ] && rsync -a /verif/.build $S/verif/
 mkdir -p $S/verif/replays $S/verif/evidence
 sed -i "s#\"/repo#\"$S/repo#g" $S/verif/driver/Cargo.toml
 rm -rf $S/verif/.build/bin $S/verif/.build/c18
